@@ -142,3 +142,8 @@ func init() {
 		},
 	})
 }
+
+func init() {
+	c := fw.Lookup("C10")
+	c.Phases = append(c.Phases, sqlExtraPhases(evalC10, false)...)
+}
